@@ -46,6 +46,9 @@ fn targets(all: bool) -> Vec<LVal> {
         arr("A%", &[int(3)]),
         arr("A$", &[int(2)]),
         arr("C", &[int(1), int(1)]),
+        // last element of a row and first element of the next: distinct cells
+        arr("C", &[int(0), int(10)]),
+        arr("C", &[int(1), int(0)]),
         arr("C", &[int(1), int(11)]),
         arr("C", &[int(1), int(12)]),
         arr("C", &[int(11), int(2)]),
@@ -242,6 +245,71 @@ impl SpaceModel for Model {
     }
 }
 
+/// SWAP of operands of different types inside a program: TYPE MISMATCH, both
+/// unchanged - also after CONT has resumed behind the failed statement.
+struct SwapInProgram;
+
+impl Sweep for SwapInProgram {
+    fn name(&self) -> String {
+        "mixed-type-SWAP-in-a-program-then-CONT".into()
+    }
+    fn shards(&self) -> usize {
+        1
+    }
+    fn run_shard(&self, _shard: usize, ctx: &mut crate::engine::Ctx) {
+        let ops: [(&str, &str, char); 7] = [("A%", "1", '%'), ("B!", "2.5", '!'), ("C#", "0.25#", '#'), ("D$", "\"s\"", '$'), ("E%(1)", "7", '%'), ("F!(2)", "3.5", '!'), ("G$(1)", "\"t\"", '$')];
+        for (x, xv, xt) in ops {
+            for (y, yv, yt) in ops {
+                if xt == yt {
+                    continue;
+                }
+                let assign = format!("{}={}:{}={}", x, xv, y, yv);
+                let show = format!("PRINT {};\"|\";{}", x, y);
+                let lines = [format!("10 {}:SWAP {},{}", assign, x, y), "20 PRINT \"after\";".to_string()];
+                let desc = format!("{} / {} // RUN // {} // CONT // {}", lines[0], lines[1], show, show);
+                if !ctx.begin(&desc) {
+                    continue;
+                }
+                let r = crate::engine::guard(|| {
+                    let mut b = Session::new();
+                    b.enter(&assign);
+                    b.take();
+                    b.enter(&show);
+                    let base = crate::driver::render(&b.take());
+                    let mut s = Session::new();
+                    for l in &lines {
+                        s.enter(l);
+                    }
+                    s.take();
+                    s.enter("RUN");
+                    let run = crate::driver::render(&s.take());
+                    s.enter(&show);
+                    let before = crate::driver::render(&s.take());
+                    s.enter("CONT");
+                    let cont = crate::driver::render(&s.take());
+                    s.enter(&show);
+                    let after = crate::driver::render(&s.take());
+                    (base, run, before, cont, after)
+                });
+                match r {
+                    Err(p) => ctx.violation("SWAP-in-program/panic", p),
+                    Ok((base, run, before, cont, after)) => {
+                        ctx.nontrivial(hash64(&(&base, xt, yt)));
+                        if !run.contains("TYPE MISMATCH") {
+                            ctx.violation("SWAP-in-program/mixed-types-accepted", format!("{} : RUN gave {:?}", desc, run));
+                        } else if before != base {
+                            ctx.violation("SWAP-in-program/operands-changed-by-rejected-SWAP", format!("{} : expected {:?}, got {:?}", desc, base, before));
+                        } else if after != base {
+                            ctx.violation("SWAP-in-program/operands-changed-after-CONT", format!("{} : CONT gave {:?}; expected {:?}, got {:?}", desc, cont, base, after));
+                        }
+                    }
+                }
+            }
+        }
+        ctx.sample();
+    }
+}
+
 impl Check for C06 {
     fn id(&self) -> &'static str {
         "C06"
@@ -251,17 +319,19 @@ impl Check for C06 {
             Tier::Quick => vec![
                 Box::new(SpaceSweep { model: Model { label: "full-alphabet", acts: actions(true), depth: 2 } }),
                 Box::new(SpaceSweep { model: Model { label: "core-alphabet", acts: actions(false), depth: 3 } }),
+                Box::new(SwapInProgram),
             ],
             Tier::Thorough => vec![
                 Box::new(SpaceSweep { model: Model { label: "full-alphabet", acts: actions(true), depth: 3 } }),
                 Box::new(SpaceSweep { model: Model { label: "core-alphabet", acts: actions(false), depth: 4 } }),
+                Box::new(SwapInProgram),
             ],
         }
     }
     fn meta(&self, tier: Tier) -> Meta {
         Meta {
             bound: format!(
-                "all histories of depth <={} over the full alphabet ({} statements: assignment of 7 values to 11 scalar names A A! A# A% A$ AB A1 F FA B B2 and 19 array elements incl. subscripts -1, 1.5, 10, 11, 32767 and wrong dimension counts; 10 DIMs; 4 ERASEs; 16 DEFtype statements over A, A-B, F, A-Z; all 42 ordered SWAPs of 7 operands; CLEAR) and depth <={} over the core alphabet ({} statements), deduplicated by the full state digest; after the last step every scalar and every known array element, corner and just-outside subscript is read back",
+                "all histories of depth <={} over the full alphabet ({} statements: assignment of 7 values to 11 scalar names A A! A# A% A$ AB A1 F FA B B2 and 21 array elements incl. subscripts -1, 1.5, 10, 11, 32767, the last element of a row and the first of the next, and wrong dimension counts; 10 DIMs; 4 ERASEs; 24 DEFtype statements over A, A-B, F, A-Z, B, A-F; all 42 ordered SWAPs of 7 operands; CLEAR) and depth <={} over the core alphabet ({} statements), deduplicated by the full state digest; after the last step every scalar and every known array element, corner and just-outside subscript is read back; every mixed-type SWAP of 7 operands inside a program: TYPE MISMATCH, operands unchanged, also after CONT",
                 tier.pick(2, 3),
                 actions(true).len(),
                 tier.pick(3, 4),
